@@ -285,7 +285,12 @@ void sqf::fileio::impl_default::add_pbo_mapping(std::filesystem::path p)
         log(logmessage::fileio::PBOAlreadyAdded(p.string()));
         return;
     }
-    rvutils::pbo::pbofile pbo(p);
+    // Only ever open existing PBOs here (the path-constructor creates missing files)
+    rvutils::pbo::pbofile pbo;
+    if (std::filesystem::exists(p))
+    {
+        pbo.open(p);
+    }
     if (!pbo.good())
     {
         log(logmessage::fileio::FailedToParsePBO(p.string()));
